@@ -67,6 +67,9 @@ var pool = []poolItem{
 	{"bvcoerce4", `(coerce '(1 1 1 1) 'bit-vector)`},
 	{"bvfixed8", `(make-array 8 :element-type 'bit :adjustable nil)`},
 	{"bvread9", `#*101010101`},
+	// the empty bit-vector and the empty octets vector
+	{"bv0", `#*`},
+	{"octets0", `(string-to-octets "")`},
 	{"hash", `(let ((h (make-hash-table))) (setf (gethash 'a h) 1) h)`},
 	{"pkg", `(find-package 'c09-pkg)`},
 	{"sin0", `(make-string-input-stream "")`},
